@@ -118,7 +118,11 @@ def handleCvt (e : String) (out : List String) : String :=
     let impl := s!"{c} {m} {d} {h}"
     let kind := match e with
       | .status _ => "status" | .plain _ => "plain" | .both _ _ => "both" | .http _ _ => "http" | .wrapf _ _ => "wrapf"
-    if h != toString (wantStatus e) then s!"VIOL errorStatus http impl={h} want={wantStatus e} model={hs}"
+    -- the specification is judged on the code the implementation's status.Convert produced
+    let want := match explicitOf e with
+      | some x => x
+      | none => canonicalHttp (c.toNat?.getD 99)
+    if h != toString want then s!"VIOL errorStatus http impl={h} want={want} (explicit or canonical for code {c}) model={hs}"
     else if impl != model then s!"DIFF model={model}"
     else s!"OK nt b=cvt.{kind}"
   | _, _ => "BAD cvt"
